@@ -47,9 +47,10 @@ class PBSPro(ResourceManager):
                 raise RuntimeError('resource configuration unknown, either '
                                    'cores_per_node or $PBS_NODEFILE not set')
 
+            # NOTE: `cores_per_node` counts hardware threads already (SMT is
+            #       applied when the pilot is sized), do not apply SMT again
             nodes = self._parse_nodefile(os.environ['PBS_NODEFILE'],
-                                         cpn=rm_info.cores_per_node,
-                                         smt=rm_info.threads_per_core)
+                                         cpn=rm_info.cores_per_node)
 
         rm_info.node_list = self._get_node_list(nodes, rm_info)
 
